@@ -50,6 +50,12 @@ class SipUri:
         if kind == "ipv6":
             self.host = g.pick(["[::1]", "[2001:db8::1]", "[fe80::1:2]"])
         self.port = port(g)
+        # legal but unusual spellings, tracked as known findings: an empty password ("user:@host") and a port
+        # written with leading zeros
+        self.empty_pw = bool(self.user) and not self.password and kind == "dom" and g.chance(0.03)
+        self.port_zeros = self.port is not None and kind == "dom" and g.chance(0.03)
+        if self.empty_pw: g.count("uri_empty_password")
+        if self.port_zeros: g.count("uri_port_leading_zeros")
         self.params = []
         for _ in range(g.pick([0, 0, 1, 1, 2, 3, 6])):
             c = g.rint(0, 5)
@@ -66,12 +72,12 @@ class SipUri:
             self.headers.append((esc_word(g, HDR_OK, 1, 6, 0.1), esc_word(g, HDR_OK, 0, 8)))
 
     def hostport(self):
-        return self.host + (":%d" % self.port if self.port is not None else "")
+        return self.host + ((":0%d" if self.port_zeros else ":%d") % self.port if self.port is not None else "")
 
     def render(self, params=True, headers=True):
         s = self.scheme + ":"
         if self.user:
-            s += self.user + (":" + self.password if self.password else "") + "@"
+            s += self.user + (":" + self.password if (self.password or self.empty_pw) else "") + "@"
         s += self.hostport()
         if params:
             for k, v in self.params:
